@@ -167,7 +167,7 @@ pub fn c08(tier: Tier) -> i32 {
     let w = World::new(&[1, 1, 1, 1]);
     let t = 0usize;
     let payload_sets: Vec<Vec<u8>> = match tier {
-        Tier::Quick => vec![vec![1, 0, 0, 0], vec![1, 2, 0, 0], vec![0, 0, 1, 0]],
+        Tier::Quick => vec![vec![1, 0, 0, 0], vec![1, 2, 0, 0], vec![3, 0, 0, 0], vec![0, 3, 0, 0]],
         Tier::Thorough => {
             let mut v = Vec::new();
             for a in 0..4u8 {
